@@ -64,3 +64,6 @@ M("c17-anext-broken-is-clean-end", "C17", "abc/_streams.py", "ByteReceiveStream.
 M("c17-checkpoint-after-successful-call", "C17", TLS, "TLSStream._call_sslobject_method",
   "                if self._write_bio.pending:\n                    await self.transport_stream.send(self._write_bio.read())\n\n                return result",
   "                if self._write_bio.pending:\n                    await self.transport_stream.send(self._write_bio.read())\n                else:\n                    await sleep(0)\n\n                return result", ["R17-a"])
+
+# from seeded change C17/i (round 5)
+M("c17-listener-sets-ignore-eof-on-shared-context", "C17", "streams/tls.py", "TLSListener.serve", "    async def serve(", "    def __post_init__(self) -> None:\n        if not self.standard_compatible and hasattr(ssl, \"OP_IGNORE_UNEXPECTED_EOF\"):\n            self.ssl_context.options |= ssl.OP_IGNORE_UNEXPECTED_EOF\n\n    async def serve(", ["R17-c"])
